@@ -159,6 +159,62 @@ class _Peeler(ast.NodeTransformer):
         return node
 
 
+def _spread_literal_tuples(fn_node):
+    """`t = (x, y)` ... `f(a, *t)` is `f(a, x, y)` when t is bound once to a tuple / list display of plain names or
+    constants, never stored into or mutated, and none of the names is re-bound in the function.  Returns the number of calls
+    rewritten."""
+    own = []
+    stack = list(fn_node.body)
+    while stack:
+        x = stack.pop()
+        own.append(x)
+        for c in ast.iter_child_nodes(x):
+            if not isinstance(c, (ast.FunctionDef, ast.AsyncFunctionDef, ast.Lambda, ast.ClassDef)):
+                stack.append(c)
+    stores = {}
+    for x in own:
+        if isinstance(x, ast.Name) and isinstance(x.ctx, (ast.Store, ast.Del)):
+            stores[x.id] = stores.get(x.id, 0) + 1
+    params = {a.arg for a in ast.walk(fn_node.args) if isinstance(a, ast.arg)}
+    lits = {}
+    for x in own:
+        if isinstance(x, ast.Assign) and len(x.targets) == 1 and isinstance(x.targets[0], ast.Name) and \
+                isinstance(x.value, (ast.Tuple, ast.List)) and stores.get(x.targets[0].id) == 1 and \
+                x.targets[0].id not in params and \
+                all(isinstance(e, (ast.Name, ast.Constant)) for e in x.value.elts) and \
+                all(stores.get(e.id, 0) == 0 for e in x.value.elts if isinstance(e, ast.Name)):
+            lits[x.targets[0].id] = x.value
+    if not lits:
+        return 0
+    for x in own:
+        # any other use than `*t` in a call (a method call, a subscript store, being passed on) disqualifies the name
+        if isinstance(x, ast.Name) and isinstance(x.ctx, ast.Load) and x.id in lits:
+            x._spread_candidate = True
+    used_otherwise = set()
+    starred = []
+    for x in own:
+        if isinstance(x, ast.Call):
+            for i, a in enumerate(x.args):
+                if isinstance(a, ast.Starred) and isinstance(a.value, ast.Name) and a.value.id in lits:
+                    starred.append((x, i, a.value))
+    star_ids = {id(n) for _, _, n in starred}
+    for x in own:
+        if isinstance(x, ast.Name) and isinstance(x.ctx, ast.Load) and x.id in lits and id(x) not in star_ids:
+            used_otherwise.add(x.id)
+    n = 0
+    import copy as _copy
+    for call, i, nm in sorted(starred, key=lambda t: -t[1]):
+        if nm.id in used_otherwise:
+            continue
+        call.args[i:i + 1] = [_copy.deepcopy(e) for e in lits[nm.id].elts]
+        for e in call.args:
+            ast.copy_location(e, call) if not hasattr(e, 'lineno') else None
+        n += 1
+    if n:
+        ast.fix_missing_locations(fn_node)
+    return n
+
+
 def apply(project):
     """peel in place; returns the fq names of the functions changed"""
     changed = []
@@ -166,6 +222,8 @@ def apply(project):
         if m.name.startswith('petl._controls'):
             continue
         for q, fn in list(m.functions.items()):
+            if any(isinstance(x, ast.Starred) for x in ast.walk(fn.node)) and _spread_literal_tuples(fn.node):
+                changed.append(fn.fq)
             if not any((isinstance(x, ast.For) and _chain_tail(x.iter) is not None) or
                        (isinstance(x, ast.Attribute) and x.attr == 'writerows') for x in ast.walk(fn.node)):
                 continue
